@@ -732,7 +732,8 @@ PENDING["C06"] = dict(
 PENDING["C19"] = dict(
     title="Extension expressions are opaque leaves evaluated once, in place",
     projection="stacks",
-    monitors=[("C19", "accepted_wf")],
+    monitors=[("C19", "wf")],
+    extra_files=["C19b"],
     domain="accepted_wf",
     rule="accepted, well-formed programs with extension leaves in every expression position (operand, initialiser, argument, "
          "condition side, return value, inside brackets); non-trivial = at least three extension leaves and two blocks; "
@@ -788,12 +789,32 @@ def lints():
     add("function_body starts from BlockState::new(None)",
         re.search(r"pub fn function_body[\s\S]{0,400}?BlockState::new\(None\)", code) is not None,
         ["C17", "C09", "C12", "C10"])
-    # 4. run = three for-loops over data: types, declarations, bodies
-    m = re.search(r"pub fn run\(&mut self, data:[^)]*\)\s*\{([\s\S]*?)\n    \}\n", code)
-    body = m.group(1) if m else ""
-    order = [x for x in re.findall(r"self\.(types|constant|function_declaration|function_body|import)\(", body)]
-    add("run makes the three passes in order", order == ["import", "types", "constant", "function_declaration", "function_body"]
-        and body.count("for main in data") == 3, ["C15", "C16", "C17", "C14"], "calls: %s" % order)
+    # 4. run = three passes over data: imports+types, declarations, bodies (private helpers that
+    # run calls are expanded in place, so that splitting run into run_xxx methods changes nothing)
+    passes = ("types", "constant", "function_declaration", "function_body", "import")
+    all_fns4 = set(re.findall(r"\bfn\s+([a-z_0-9]+)\s*[(<]", code))
+
+    def raw4(name):
+        m2 = re.search(r"\bfn\s+%s\s*[(<]" % name, code)
+        if not m2:
+            return ""
+        nxt = re.search(r"\n    (?:pub )?(?:const )?fn\s+[a-z_0-9]+\s*[(<]", code[m2.end():])
+        return code[m2.end(): m2.end() + (nxt.start() if nxt else len(code))]
+
+    def expand4(body, depth=0):
+        out = []
+        for m4 in re.finditer(r"self\s*\.\s*([a-z_0-9]+)\s*\(|for\s+\w+\s+in\s+(?:&\s*)?data\b|data\s*\.\s*iter\(\)", body):
+            if m4.group(1) is None:
+                out.append("LOOP")
+            elif m4.group(1) in passes:
+                out.append(m4.group(1))
+            elif m4.group(1) in all_fns4 and m4.group(1) != "add_error" and depth < 3:
+                out += expand4(raw4(m4.group(1)), depth + 1)
+        return out
+    order = expand4(raw4("run"))
+    add("run makes the three passes in order",
+        order == ["LOOP", "import", "types", "LOOP", "constant", "function_declaration", "LOOP", "function_body"],
+        ["C15", "C16", "C17", "C14"], "calls: %s" % order)
     # 5./6. per function: the error kinds raised and the instruction kinds emitted in the Rust source
     # are those of the corresponding definitions of coq/Model.v (catches an added / removed site on
     # paths the generated programs may not walk)
@@ -937,6 +958,8 @@ def dom_ok(dom, impl, monline):
         return accepted
     if dom == "accepted_wf":
         return accepted and mon_field(monline, "wf") == "1"
+    if dom == "wf":
+        return mon_field(monline, "wf") == "1"
     return True
 
 
@@ -945,6 +968,7 @@ def analyse(prop, run):
     spec = PROPS[prop]
     nt = spec.get("nontrivial", nt_default)
     alarms, known, disagreements = [], [], []
+    unreadable = []
     where = ""
     full = 0
     seen_nt = set()
@@ -969,6 +993,8 @@ def analyse(prop, run):
             disagreements.append(i)
             if not where:
                 where = v["where"]
+        if monline.startswith("unreadable") and not impl.startswith(("(panic", "(missing")):
+            unreadable.append(i)
         dom = in_domain(prop, impl, monline)
         for mname, mdom in monitors_of(spec):
             val = mon_get(monline, mname)
@@ -1019,6 +1045,7 @@ def analyse(prop, run):
         for k in re.findall(r"\(err (\w+)", o):
             kinds[k] = kinds.get(k, 0) + 1
     return {"alarms": alarms, "known": known, "disagreements": disagreements, "disagreement_where": where,
+            "unreadable": unreadable,
             "full_agreement": full, "distinct_nontrivial": len(seen_nt), "samples": samples,
             "distribution": {"streams": dist, "accepted": sum(1 for o in run.impl if o.startswith("(out (errors) ")),
                              "panics": sum(1 for o in run.impl if o.startswith("(panic")),
